@@ -198,12 +198,12 @@ def run_nest(case):
 ARG_ATOMS = [
     ('1', "1"), ('x+y', '2+3'), ('text,', '"a,b"'), ('text;)', '"x;)("'), ('text{', '"{1,2}"'), ('text"', '"q""r"'),
     ('call', 'SUM(4,5)'), ('union', '(B1,C1)'), ('array', '{1,2;3,4}'), ('neg', '-6'), ('empty', ''),
-    ('text=,', '","'), ('text=)', '")"'), ('text=(', '"("'),
+    ('text=,', '","'), ('text=)', '")"'), ('text=(', '"("'), ('ref', 'B1'),
 ]
 ARG_EXPR = {
     '1': ('1', '1'), 'x+y': ('(2 + 3)', '5'), 'text,': ('"a,b"', "'a,b'"), 'text;)': ('"x;)("', "'x;)('"), 'text{': ('"{1,2}"', "'{1,2}'"),
     'text"': ('"q""r"', "'q\"r'"), 'call': ('SUM(4, 5)', '9'), 'union': ('(B1, C1)', 'R[B1,C1]'), 'array': ('ARRAY(ARRAY(1, 2), ARRAY(3, 4))', 'A[[1,2],[3,4]]'),
-    'neg': ('-6', '-6'), 'empty': ('', 'EMPTY'), 'text=,': ('","', "','"), 'text=)': ('")"', "')'"), 'text=(': ('"("', "'('"),
+    'neg': ('-6', '-6'), 'empty': ('', 'EMPTY'), 'text=,': ('","', "','"), 'text=)': ('")"', "')'"), 'text=(': ('"("', "'('"), 'ref': ('B1', 'R[B1]'),
 }
 
 
@@ -215,6 +215,8 @@ def call_cases(tier):
             for sp in ('', ' ') + (('\t',) if n <= 2 else ()):
                 for nested in (False, True):
                     yield ['call', list(combo), sp, nested]
+                    if sp and n <= 2:
+                        yield ['call', list(combo), sp, nested, 'inner']
 
 
 def _probe(*args):
@@ -240,10 +242,11 @@ def install_probe():
 
 
 def run_call(case):
-    _, combo, sp, nested = case
+    _, combo, sp, nested = case[:4]
     install_probe()
     atoms = dict(ARG_ATOMS)
-    text = 'vprobe(%s)' % (',' + sp).join(atoms[k] for k in combo)
+    inner = sp if len(case) > 4 else ''          # white space also right after the opening and before the closing parenthesis
+    text = 'vprobe(%s%s%s)' % (inner, (',' + sp).join(atoms[k] for k in combo), inner if combo and combo[-1] != 'empty' else '')
     exp_expr = 'VPROBE(%s)' % ', '.join(ARG_EXPR[k][0] for k in combo)
     # an empty argument reaches the function as Excel's "missing" value 0; a call
     # with no argument at all has no argument
